@@ -1,125 +1,239 @@
 import Operon.Model.MitoTools
-/-! Helper lemmas for C03: every operation only appends permitted tools to the execution log. -/
+/-! Helper lemmas for C03: every operation only appends executions of tools that are within the ceiling in force. -/
 namespace Operon.MitoTools
 
-/-- `s'` extends the execution log of `s` by tools that are all within the ceiling; the registry is unchanged -/
-def Ext (allowed : Option (List Cap)) (s s' : St) : Prop :=
-  s'.reg = s.reg ∧ ∃ new, s'.events = s.events ++ new ∧ ∀ t ∈ new, permitted allowed t = true
+/-! ### registry -/
 
-theorem Ext.refl (allowed : Option (List Cap)) (s : St) : Ext allowed s s :=
-  ⟨rfl, [], by simp, by simp⟩
+theorem lookup_nil (n : String) : Registry.lookup [] n = none := rfl
 
-theorem Ext.trans {allowed : Option (List Cap)} {a b c : St} (h1 : Ext allowed a b) (h2 : Ext allowed b c) :
-    Ext allowed a c := by
-  obtain ⟨hr1, n1, he1, hp1⟩ := h1
-  obtain ⟨hr2, n2, he2, hp2⟩ := h2
-  refine ⟨hr2.trans hr1, n1 ++ n2, by rw [he2, he1, List.append_assoc], ?_⟩
-  intro t ht
-  rcases List.mem_append.mp ht with h | h
-  · exact hp1 t h
-  · exact hp2 t h
+theorem lookup_cons (p : String × Tool) (ps : Registry) (n : String) :
+    Registry.lookup (p :: ps) n = if p.1 == n then some p.2 else Registry.lookup ps n := by
+  unfold Registry.lookup
+  by_cases h : (p.1 == n) = true
+  · simp [h]
+  · have h' : (p.1 == n) = false := by simpa using h
+    simp [h']
 
-theorem ext_ros (allowed : Option (List Cap)) (s : St) :
-    Ext allowed s { s with rosErrors := s.rosErrors + 1 } := ⟨rfl, [], by simp, by simp⟩
+theorem lookup_set (r : Registry) (n : String) (t : Tool) : (r.set n t).lookup n = some t := by
+  unfold Registry.set
+  split
+  · rename_i h
+    induction r with
+    | nil => simp at h
+    | cons p ps ih =>
+      rw [List.map_cons, lookup_cons]
+      by_cases hp : (p.1 == n) = true
+      · simp [hp]
+      · have hne : (p.1 == n) = false := by simpa using hp
+        simp only [List.any_cons, hne, Bool.false_or] at h
+        simp only [hne, Bool.false_eq_true, ite_false]
+        exact ih h
+  · rename_i h
+    induction r with
+    | nil => simp [lookup_cons]
+    | cons p ps ih =>
+      simp only [List.any_cons, Bool.or_eq_true, not_or] at h
+      have hne : (p.1 == n) = false := by simpa using h.1
+      rw [List.cons_append, lookup_cons]
+      simp only [hne]
+      exact ih h.2
 
-theorem runBody_ext (allowed : Option (List Cap)) (s : St) (t : Tool) (hp : permitted allowed t = true) :
-    Ext allowed s (runBody s t).1 := by
+theorem lookup_redeclare (r : Registry) (n : String) (t : Tool) (req caps : Option (List Cap))
+    (hl : r.lookup n = some t) :
+    (r.redeclare n req caps).lookup n = some { t with req := req, caps := caps } := by
+  unfold Registry.redeclare
+  induction r with
+  | nil => simp [lookup_nil] at hl
+  | cons p ps ih =>
+    rw [lookup_cons] at hl
+    rw [List.map_cons, lookup_cons]
+    by_cases hp : (p.1 == n) = true
+    · simp only [hp, ite_true] at hl ⊢
+      injection hl with hl
+      rw [hl]
+    · have hne : (p.1 == n) = false := by simpa using hp
+      simp only [hne, Bool.false_eq_true, ite_false] at hl ⊢
+      exact ih hl
+
+/-! ### executions -/
+
+/-- an execution that was within the ceiling it was judged against -/
+def Ev.ok (e : Ev) : Prop := permitted e.ceiling e.tool = true
+
+/-- `s'` keeps the ceiling of `s` and extends its execution log by tools that are all within that ceiling
+    (the registry may change: registration can happen while a call is in flight) -/
+def Ext (s s' : St) : Prop :=
+  s'.allowed = s.allowed ∧
+    ∃ new, s'.events = s.events ++ new ∧ ∀ e ∈ new, e.ceiling = s.allowed ∧ permitted s.allowed e.tool = true
+
+theorem Ext.refl (s : St) : Ext s s := ⟨rfl, [], by simp, by simp⟩
+
+theorem Ext.trans {a b c : St} (h1 : Ext a b) (h2 : Ext b c) : Ext a c := by
+  obtain ⟨ha1, n1, he1, hp1⟩ := h1
+  obtain ⟨ha2, n2, he2, hp2⟩ := h2
+  refine ⟨ha2.trans ha1, n1 ++ n2, by rw [he2, he1, List.append_assoc], ?_⟩
+  intro e he
+  rcases List.mem_append.mp he with h | h
+  · exact hp1 e h
+  · have := hp2 e h
+    rw [ha1] at this
+    exact this
+
+theorem ext_ros (s : St) : Ext s { s with rosErrors := s.rosErrors + 1 } := ⟨rfl, [], by simp, by simp⟩
+
+theorem ext_during (s : St) (ops : List RegOp) : Ext s (during s ops) := ⟨rfl, [], by simp [during], by simp⟩
+
+theorem ext_during_ros (s : St) (ops : List RegOp) :
+    Ext s { during s ops with rosErrors := s.rosErrors + 1 } := ⟨rfl, [], by simp [during], by simp⟩
+
+theorem runBody_ext (s : St) (t : Tool) (hp : permitted s.allowed t = true) : Ext s (runBody s t).1 := by
   unfold runBody
   split
-  · exact ⟨rfl, [t], rfl, by simpa using hp⟩
-  · exact ⟨rfl, [t], rfl, by simpa using hp⟩
+  · exact ⟨rfl, [⟨t, s.allowed⟩], rfl, by simpa using hp⟩
+  · exact ⟨rfl, [⟨t, s.allowed⟩], rfl, by simpa using hp⟩
 
-theorem oxidative_ext (allowed : Option (List Cap)) (s : St) (callee : Callee) (argsOk : Bool) :
-    Ext allowed s (oxidative ⟨true, true⟩ allowed s callee argsOk).1 := by
+theorem runBody_during_ext (s : St) (ops : List RegOp) (t : Tool) (hp : permitted s.allowed t = true) :
+    Ext s (runBody (during s ops) t).1 :=
+  Ext.trans (ext_during s ops) (runBody_ext (during s ops) t (by simpa [during] using hp))
+
+theorem oxidative_ext (s : St) (callee : Callee) (argsOk : Bool) (ops : List RegOp) :
+    Ext s (oxidative ⟨true, true⟩ s callee argsOk ops).1 := by
   unfold oxidative
   split
-  · exact ext_ros allowed s
-  · exact ext_ros allowed s
+  · exact ext_ros s
+  · exact ext_ros s
   · split
-    · exact ext_ros allowed s
+    · exact ext_ros s
     · rename_i t _
-      by_cases hp : permitted allowed t = true
+      by_cases hp : permitted s.allowed t = true
       · simp only [hp]
         split
         · rename_i h; simp at h
         · split
-          · exact ext_ros allowed s
-          · exact runBody_ext allowed s t hp
+          · exact ext_during_ros s ops
+          · exact runBody_during_ext s ops t hp
       · simp only [Bool.not_eq_true] at hp
         simp only [hp]
-        exact ext_ros allowed s
+        exact ext_ros s
 
-theorem metabolize_ext (allowed : Option (List Cap)) (s : St) (pre : Pre) (callee : Callee) (argsOk : Bool) :
-    Ext allowed s (metabolize ⟨true, true⟩ allowed s pre callee argsOk).1 := by
+theorem metabolize_ext (s : St) (pre : Pre) (callee : Callee) (argsOk : Bool) (ops : List RegOp) :
+    Ext s (metabolize ⟨true, true⟩ s pre callee argsOk ops).1 := by
   unfold metabolize
   split
-  · exact Ext.refl allowed s
-  · exact Ext.refl allowed s
-  · exact Ext.refl allowed s
-  · exact oxidative_ext allowed s callee argsOk
+  · exact Ext.refl s
+  · exact Ext.refl s
+  · exact ext_during s ops
+  · exact Ext.refl s
+  · exact oxidative_ext s callee argsOk ops
 
-theorem executeToolCall_ext (allowed : Option (List Cap)) (s : St) (n : String) :
-    Ext allowed s (executeToolCall ⟨true, true⟩ allowed s n).1 := by
+theorem executeToolCall_ext (s : St) (n : String) (ops : List RegOp) :
+    Ext s (executeToolCall ⟨true, true⟩ s n ops).1 := by
   unfold executeToolCall
   split
-  · exact Ext.refl allowed s
+  · exact Ext.refl s
   · rename_i t _
-    by_cases hp : permitted allowed t = true
+    by_cases hp : permitted s.allowed t = true
     · simp only [hp]
       split
       · rename_i h; simp at h
-      · exact runBody_ext allowed s t hp
+      · exact runBody_during_ext s ops t hp
     · simp only [Bool.not_eq_true] at hp
       simp only [hp]
-      exact ext_ros allowed s
+      exact ext_ros s
 
-theorem loopRound_ext (allowed : Option (List Cap)) : ∀ (ns : List String) (s : St),
-    Ext allowed s (loopRound ⟨true, true⟩ allowed s ns).1
-  | [], s => Ext.refl allowed s
-  | n :: ns, s => by
+theorem loopRound_ext : ∀ (cs : List (String × List RegOp)) (s : St), Ext s (loopRound ⟨true, true⟩ s cs).1
+  | [], s => Ext.refl s
+  | c :: cs, s => by
     simp only [loopRound]
-    exact Ext.trans (executeToolCall_ext allowed s n) (loopRound_ext allowed ns _)
+    exact Ext.trans (executeToolCall_ext s c.1 c.2) (loopRound_ext cs _)
 
-theorem toolLoop_ext (allowed : Option (List Cap)) : ∀ (k : Nat) (rounds : List (List String)) (s : St),
-    Ext allowed s (toolLoop ⟨true, true⟩ allowed k s rounds).1
-  | 0, _, s => by simp [toolLoop]; exact Ext.refl allowed s
-  | _ + 1, [], s => by simp [toolLoop]; exact Ext.refl allowed s
-  | _ + 1, [] :: _, s => by simp [toolLoop]; exact Ext.refl allowed s
-  | k + 1, (c :: cs) :: rounds, s => by
+theorem toolLoop_ext : ∀ (k : Nat) (auto : Bool) (rounds : List Round) (s : St),
+    Ext s (toolLoop ⟨true, true⟩ k auto s rounds).1
+  | 0, _, _, s => by simp [toolLoop]; exact Ext.refl s
+  | _ + 1, _, [], s => by simp [toolLoop]; exact Ext.refl s
+  | k + 1, auto, r :: rounds, s => by
     simp only [toolLoop]
-    exact Ext.trans (loopRound_ext allowed (c :: cs) s) (toolLoop_ext allowed k rounds _)
+    split
+    · exact ext_during s r.before
+    · exact Ext.trans (ext_during s r.before)
+        (Ext.trans (loopRound_ext r.calls _) (toolLoop_ext k auto rounds _))
 
-/-- log-only extension (registry may change): what `step` guarantees -/
-def ExtLog (allowed : Option (List Cap)) (s s' : St) : Prop :=
-  ∃ new, s'.events = s.events ++ new ∧ ∀ t ∈ new, permitted allowed t = true
+/-- log-only extension: what `step` guarantees (the ceiling itself may be re-assigned between requests) -/
+def ExtLog (s s' : St) : Prop :=
+  ∃ new, s'.events = s.events ++ new ∧ ∀ e ∈ new, e.ceiling = s.allowed ∧ permitted s.allowed e.tool = true
 
-theorem step_extLog (allowed : Option (List Cap)) (s : St) (op : Op) :
-    ExtLog allowed s (step ⟨true, true⟩ allowed s op) := by
+theorem step_extLog (s : St) (op : Op) : ExtLog s (step ⟨true, true⟩ s op) := by
   cases op with
   | register n t => exact ⟨[], by simp [step], by simp⟩
   | unregister n => exact ⟨[], by simp [step], by simp⟩
-  | metabolize pre callee argsOk => exact (metabolize_ext allowed s pre callee argsOk).2
-  | call n => exact (executeToolCall_ext allowed s n).2
+  | redeclare n req caps => exact ⟨[], by simp [step], by simp⟩
+  | setCeiling al => exact ⟨[], by simp [step], by simp⟩
+  | metabolize pre callee argsOk ops => exact (metabolize_ext s pre callee argsOk ops).2
+  | call n ops => exact (executeToolCall_ext s n ops).2
   | loop k auto rounds =>
     simp only [step]
     split
     · exact ⟨[], by simp, by simp⟩
-    · exact (toolLoop_ext allowed k rounds s).2
+    · exact (toolLoop_ext k auto rounds s).2
 
-theorem run_events (allowed : Option (List Cap)) (ops : List Op) : ∀ (s : St),
-    (∀ t ∈ s.events, permitted allowed t = true) →
-    ∀ t ∈ (run ⟨true, true⟩ allowed s ops).events, permitted allowed t = true := by
+/-- does the history re-assign the ceiling? -/
+def Op.isSetCeiling : Op → Bool
+  | .setCeiling _ => true
+  | _ => false
+
+theorem step_allowed (s : St) (op : Op) (h : op.isSetCeiling = false) :
+    (step ⟨true, true⟩ s op).allowed = s.allowed := by
+  cases op with
+  | register n t => rfl
+  | unregister n => rfl
+  | redeclare n req caps => rfl
+  | setCeiling al => simp [Op.isSetCeiling] at h
+  | metabolize pre callee argsOk ops => exact (metabolize_ext s pre callee argsOk ops).1
+  | call n ops => exact (executeToolCall_ext s n ops).1
+  | loop k auto rounds =>
+    simp only [step]
+    split
+    · rfl
+    · exact (toolLoop_ext k auto rounds s).1
+
+theorem run_events (ops : List Op) : ∀ (s : St),
+    (∀ e ∈ s.events, e.ok) → ∀ e ∈ (run ⟨true, true⟩ s ops).events, e.ok := by
   induction ops with
   | nil => intro s h; simpa [run] using h
   | cons op ops ih =>
     intro s h
     simp only [run, List.foldl_cons]
     apply ih
-    obtain ⟨new, he, hp⟩ := step_extLog allowed s op
-    intro t ht
-    rw [he] at ht
-    rcases List.mem_append.mp ht with h' | h'
-    · exact h t h'
-    · exact hp t h'
+    obtain ⟨new, he, hp⟩ := step_extLog s op
+    intro e hm
+    rw [he] at hm
+    rcases List.mem_append.mp hm with h' | h'
+    · exact h e h'
+    · have := hp e h'
+      unfold Ev.ok
+      rw [this.1]
+      exact this.2
+
+/-- without re-assignment of the ceiling every execution was judged against the ceiling of the start state -/
+theorem run_events_fixed (ops : List Op) : ∀ (s : St),
+    (∀ op ∈ ops, op.isSetCeiling = false) →
+    (∀ e ∈ s.events, e.ceiling = s.allowed) →
+    (run ⟨true, true⟩ s ops).allowed = s.allowed ∧ ∀ e ∈ (run ⟨true, true⟩ s ops).events, e.ceiling = s.allowed := by
+  induction ops with
+  | nil => intro s _ h; exact ⟨rfl, by simpa [run] using h⟩
+  | cons op ops ih =>
+    intro s hno h
+    simp only [run, List.foldl_cons]
+    have ha := step_allowed s op (hno op (by simp))
+    have := ih (step ⟨true, true⟩ s op) (fun o ho => hno o (by simp [ho])) (by
+      obtain ⟨new, he, hp⟩ := step_extLog s op
+      intro e hm
+      rw [he] at hm
+      rw [ha]
+      rcases List.mem_append.mp hm with h' | h'
+      · exact h e h'
+      · exact (hp e h').1)
+    rw [ha] at this
+    exact this
 
 end Operon.MitoTools
